@@ -130,7 +130,28 @@ func Accept(q *world.Req, chain []world.Entry, name func(hid int) string) []Find
 		fail("R6-unexplained-panic", "the framework panicked between handlers although the next handler ("+name(nextSim(chain, pos))+") can be invoked; a handler whose dependencies cannot be resolved is tried at most once", nil)
 	}
 	rhActive, rhDue := false, -1
+	// The default ReturnHandler renders non-zero return values by writing them: a handler that
+	// returned some while nothing had been written yet is followed by a write (an accepted or
+	// refused status at the underlying writer) before anything else happens in the chain.
+	renderDue, substituted := -1, false
+	shapeOf := func(hid int) int {
+		for _, c := range chain {
+			if c.HID == hid {
+				return c.Shape
+			}
+		}
+		return -1
+	}
 	for ei, e := range q.Events {
+		if e.K == world.EvNote && e.S == "writer-substituted" {
+			substituted = true
+		}
+		if renderDue >= 0 && e.K != world.EvCancel && e.K != world.EvNote && e.K != world.EvBefore && e.K != world.EvRaise {
+			if e.K != world.EvSpyHeader && e.K != world.EvSpyRefuse && e.K != world.EvSpyHeader2 && e.K != world.EvSpyWrite && e.K != world.EvPanicOut && e.K != world.EvNextPanic {
+				fail("R3-return-not-rendered", "handler "+name(renderDue)+" returned a non-zero value while nothing had been written, but nothing was written to render it before the chain went on", nil)
+			}
+			renderDue = -1
+		}
 		// R3 "its return values, if any, having been rendered first": once a request-scoped
 		// ReturnHandler is mapped, it is called right after a value-returning handler returned.
 		if rhDue >= 0 && e.K != world.EvCancel && e.K != world.EvNote {
@@ -145,6 +166,11 @@ func Accept(q *world.Req, chain []world.Entry, name func(hid int) string) []Find
 		case world.EvExit:
 			if rhActive && ei > 0 && q.Events[ei-1].K == world.EvRet && q.Events[ei-1].H == e.H {
 				rhDue = int(e.H)
+			}
+			if !rhActive && !substituted && !written && ei > 0 && q.Events[ei-1].K == world.EvRet && q.Events[ei-1].H == e.H {
+				if r := q.Events[ei-1]; len(r.S) == 2 && world.RetRenders(shapeOf(int(e.H)), int(r.S[1]-'0')) {
+					renderDue = int(e.H)
+				}
 			}
 		}
 		if ei > 0 {
@@ -290,6 +316,9 @@ func Accept(q *world.Req, chain []world.Entry, name func(hid int) string) []Find
 			unwinding = false
 			skipContinueCheck = true
 		}
+	}
+	if renderDue >= 0 {
+		fail("R3-return-not-rendered", "handler "+name(renderDue)+" returned a non-zero value while nothing had been written, but nothing was ever written to render it", nil)
 	}
 	if rhDue >= 0 {
 		fail("R3-return-not-rendered", "handler "+name(rhDue)+" returned values but the request's ReturnHandler was never called to render them", nil)
